@@ -39,6 +39,11 @@ package ast
 //@   sweep                                                         [C16]
 //@ func (*Glob).UnmarshalYAML
 //@   sweep                                                         [C16]
+// C05: a sources / generates pattern is kept exactly as it is written (it is a template: it is only interpreted,
+// joined with the task directory and cleaned, after its variables have been filled in); "exclude:" negates it
+//@   ensures result == nil && node.Kind == 8 ==> g.Glob == node.Value && g.Negate == old(g.Negate)                     [C05,C04]
+//@   ensures result == nil && node.Kind == 4 ==> g.Glob == glob.Exclude && g.Negate                                    [C05,C04]
+//@   ensures result == nil ==> node.Kind == 8 || node.Kind == 4                                                        [C05]
 //@ func (*Includes).UnmarshalYAML
 //@   sweep                                                         [C16]
 //@   loop 1 invariant 0 <= i && i % 2 == 0                         [C16]
@@ -150,6 +155,7 @@ package ast
 // dupFree: t1.Get(taskName) was asked and said "absent"; excluded: the exclude list contains the name;
 // varsDone: the include statement's vars were merged into the copy.
 //@ ghost var dupFree bool scratch
+//@ ghost var added bool scratch
 //@ ghost var reMatched bool scratch
 //@ ghost var reTried bool scratch
 //@ ghost var nSub int scratch
@@ -184,6 +190,11 @@ package ast
 //@   site (*Tasks).Set#1 requires arg0 == t1 && arg1 == taskName && arg2 == task                                        [C08]
 //@   site (*Tasks).Set#1 requires dupFree                                     -- never overwrite an existing task       [C08,C09]
 //@   site (*Tasks).Set#1 requires !excluded                                   -- excluded tasks are not merged          [C08]
+// ... and the merge only goes on to the next task after this one was added (or is excluded): a name that is already
+// taken ends the merge with the conflict error, it is never skipped silently
+//@   init added := false
+//@   site (*Tasks).Set#1 ghost added := true
+//@   ensures result ==> added || excluded                                                                               [C08]
 //@   site (*Tasks).Set#1 requires task.Internal == (v.Internal || (include != nil && include.Internal))                 [C08,C13]
 //@   loop 1 invariant unmodified(v)
 //@   loop 2 invariant unmodified(v)
@@ -299,7 +310,7 @@ package ast
 
 // ---- C08: a ':'-prefixed reference loses exactly ONE leading ':' per include level
 //@ func taskNameWithNamespace
-//@   site strings.TrimPrefix#1 requires arg0 == taskName && arg1 == ":"                                                 [C08]
+//@   ensures strHasPrefix(taskName, ":") ==> result == strTrimPrefix(taskName, ":")                                     [C08]
 //@   nosite strings.TrimLeft                                                                                            [C08]
 //@   nosite strings.TrimLeftFunc                                                                                        [C08]
 // ---- C09: the order in which Taskfiles of one level are merged is the plain order of their locations (a total
